@@ -18,7 +18,7 @@ func init() {
 		ID:          "C04",
 		Level:       "other",
 		Run:         runC04,
-		Explanation: "Decides that the mechanisms of the hazard discipline are wired as it requires, on every variant: R04.1 the hazard classifiers equal the reference (RAW = reads∩pending writes, WAW = writes∩pending writes, WAR = writes∩pending reads, zero register skipped); R04.2 the control unit's dispatch predicates equal the reference (conflict with held-back instructions; forwarding only for exactly one RAW hazard with a producer dispatched in the previous cycle; renaming only for exactly one non-RAW hazard) and every dispatch is guarded by 'no hazard', the forwarding predicate or the renaming predicate; R04.3 the scoreboard is raised at dispatch and released after the architectural write, in the same block; R04.4 forwarding wiring (one channel of capacity 1 shared by producer and consumer, the forwarded register is the hazard's, the producer sends its result exactly when it has a forwarder, the consumer receives before it runs); R04.5 register read precedence; R04.6 declared read/write sets are exact; R04.7 the scoreboard touches only the scoreboard; R04.8 where renaming can put two writers of a register in flight, the forwarding predicate equals the renaming reference (forward only from the single writer dispatched in the previous cycle when no writer was dispatched in the current cycle); R04.9 all register-reading calls of one variant pass the same sequence tag; R04.11 every path through the control unit's step rotates the previous-cycle set the forwarding predicate relies on; R04.10 wiring a forward writes only the producer's Forwarder, so an instruction that is the consumer of one forward and the producer of the next keeps the register it is waiting for. Does not decide that the discipline is sufficient under every dispatch interleaving (a schedule/value question).",
+		Explanation: "Decides that the mechanisms of the hazard discipline are wired as it requires, on every variant: R04.1 the hazard classifiers equal the reference (RAW = reads∩pending writes, WAW = writes∩pending writes, WAR = writes∩pending reads, zero register skipped); R04.2 the control unit's dispatch predicates equal the reference (conflict with held-back instructions; forwarding only for exactly one RAW hazard with a producer dispatched in the previous cycle; renaming only for exactly one non-RAW hazard) and every dispatch is guarded by 'no hazard', the forwarding predicate or the renaming predicate; R04.3 the scoreboard is raised at dispatch and released after the architectural write, in the same block; R04.4 forwarding wiring (one channel of capacity 1 shared by producer and consumer, the forwarded register is the hazard's, the producer sends its result exactly when it has a forwarder, the consumer receives before it runs); R04.5 register read precedence; R04.6 declared read/write sets are exact; R04.7 the scoreboard touches only the scoreboard; R04.8 where renaming can put two writers of a register in flight, the forwarding predicate equals the renaming reference (forward only from the single writer dispatched in the previous cycle when no writer was dispatched in the current cycle); R04.12 write-after-write under out-of-order completion: the uncommitted writes of a register are kept ordered by sequence id, a value is committed only over an older one, and a read prefers a committed younger value (reference model); R04.9 all register-reading calls of one variant pass the same sequence tag; R04.11 every path through the control unit's step rotates the previous-cycle set the forwarding predicate relies on; R04.10 wiring a forward writes only the producer's Forwarder, so an instruction that is the consumer of one forward and the producer of the next keeps the register it is waiting for. Does not decide that the discipline is sufficient under every dispatch interleaving (a schedule/value question).",
 		Assumptions: []string{"dispatch interleavings beyond the structural rules are not explored"},
 		Trusted:     []string{"go/types", "term engine", "reference models spec/risc_state.go.txt, spec/cu.go.txt"},
 	})
@@ -86,6 +86,12 @@ func runC04(r *Run) {
 		conform(r, "R04.7", "risc", "Context", m, "risc_state", nil)
 	}
 	conform(r, "R04.5", "risc", "", "registerRead", "risc_state", nil)
+	// R04.12: with out-of-order completion two writes to one register leave the YOUNGER one
+	r.floor("R04.12", 4)
+	conform(r, "R04.12", "risc", "Context", "TransactionRATWrite", "risc_state", nil)
+	conform(r, "R04.12", "risc", "Context", "commitRAT", "risc_state", nil)
+	conform(r, "R04.12", "risc", "Context", "isSuperseded", "risc_state", nil)
+	conform(r, "R04.12", "proc/comp", "RAT", "WriteSorted", "risc_state", nil)
 	for _, m := range []string{"Find", "Read", "Write"} {
 		conform(r, "R04.5", "proc/comp", "RAT", m, "risc_state", nil)
 	}
